@@ -27,6 +27,10 @@ type Case struct {
 	// ConcFirst: the concurrent phase runs before the sequential reference (and
 	// before the catalogue walk); only catalogue-free ops are used.
 	ConcFirst bool `json:"conc_first,omitempty"`
+
+	// refOf: this case differs from *refOf only in its schedule, so the
+	// sequential reference computed for *refOf is valid for it (not serialised).
+	refOf *Case
 }
 
 type FileM struct {
